@@ -29,13 +29,22 @@
      value_flags and for the flags regenerated from the tree.
    * nothing is assumed about code run at Generate time: Gen.exec on a fresh stack is tied to the
      reference semantics by the C01 theorems (exec_sim, call on a fresh frame) and eval_mono.
-   * the exact per-evaluation call COUNTS of impure functions are compared on the implementation by
-     the correspondence run (counters in harness functions); the core model has no effect log, it
-     proves that nothing impure is run at Generate time (the purity theorems below) and that the
-     thrown text of `throw` is the same with and without optimizer (orel relates Err t to Err t). *)
+   * effects: Sem/Trace.v is the reference evaluator with an event log.  An event is a call of a HOST
+     function (a static function outside the modelled pool: tick, random, ... - every impure function
+     of value.New() other than throw, whose effect is the thrown text in the outcome) with its argument
+     values; its result is an oracle function of name and arguments.  C02_optimize_preserves_trace:
+     whenever the traced evaluation of the original program is decided - a value, an ERROR or a PANIC -
+     the optimized program has the related outcome and the same events: same functions, same order,
+     same number, related arguments (equal when first-order); events before an error are the same
+     events.  Nothing is claimed when the original runs out of fuel or leaves the model.  Model
+     restriction: a closure called by a built-in method (callback) that makes a host call is outside
+     the trace model (Unsup); such programs stay on the Go oracle.  C02_generate_runs_no_host_call: what
+     the optimizer evaluates at Generate time has an empty trace under every oracle.  The
+     implementation's counters (tick/ptick in the harness) are compared with and without optimizer by
+     the correspondence run: that ties the model's events to the code. *)
 From P2 Require Import Base.Prelude Sem.Num Sem.Syntax Sem.Ops Sem.Lib Sem.Ref Sem.Gen Sem.Sim Sem.RefMono Sem.Opt
   Sem.OptRel Sem.OptRelProofs Sem.OptProofs Sem.OptWf Sem.OptSound Sem.OptFlagsProofs Sem.OptValue
-  Sem.OptExamples Sem.OptCfg Generated.ValueCfg Run.C02Run.
+  Sem.OptExamples Sem.OptCfg Sem.Trace Sem.TraceProofs Sem.TraceSim Sem.TraceOpt Generated.ValueCfg Run.C02Run.
 
 
 (* more fuel never changes a result other than "out of fuel" *)
@@ -202,6 +211,108 @@ Theorem folding_static_run_is_pure : forall fl f args,
   rule_static fl f args <> AStatic f args -> static_pure fl f = true.
 Proof. exact static_run_at_generate_is_pure. Qed.
 
+(* ---------- effects: the trace semantics ---------- *)
+
+(* erasure: wherever the reference evaluation is decided, the trace semantics has the same result and no
+   event (a decided reference evaluation reaches no host function) - existing theorems transfer *)
+Theorem trace_erasure : forall known host n env a,
+  tdecided (eval known n env a) -> teval known host n env a = (eval known n env a, []).
+Proof. exact eval_teval. Qed.
+
+Theorem teval_fuel_monotone : forall known host n m env a,
+  n <= m -> fst (teval known host n env a) <> OOF -> teval known host m env a = teval known host n env a.
+Proof. exact teval_mono. Qed.
+
+(* every optimized form has the same trace: all rewrite rules, all programs *)
+Theorem optimized_form_preserves_trace : forall known host,
+  host_respects known host ->
+  forall n s a t env env' m,
+  arel known s a t -> env_rel known s (fvp t) env env' -> n <= m ->
+  tdecided (fst (teval known host n env a)) ->
+  trace_rel known (teval known host n env a) (teval known host m env' t).
+Proof. exact tsim. Qed.
+
+(* THE OPTIMIZER PRESERVES THE TRACE: related outcome and the same events (same host functions, same
+   order, related arguments) whenever the original evaluates to a value, an error or a panic *)
+Theorem C02_optimize_preserves_trace : forall known host fl fuel,
+  cfg_ok fl = true -> host_respects known host ->
+  forall n m env a,
+  side_ok a = true ->
+  (forall x v, lookup x env = Some v -> vrel known v v) ->
+  n <= m ->
+  tdecided (fst (teval known host n env a)) ->
+  trace_rel known (teval known host n env a) (teval known host m env (optimize fl known fuel a)).
+Proof. exact optimize_preserves_trace_cfg. Qed.
+
+(* the exact per-evaluation call counts: the same functions in the same order, each equally often *)
+Theorem C02_optimize_preserves_call_counts : forall known host fl fuel,
+  cfg_ok fl = true -> host_respects known host ->
+  forall n m env a,
+  side_ok a = true ->
+  (forall x v, lookup x env = Some v -> vrel known v v) ->
+  n <= m ->
+  tdecided (fst (teval known host n env a)) ->
+  map fst (snd (teval known host m env (optimize fl known fuel a))) = map fst (snd (teval known host n env a)) /\
+  forall f, count_calls f (snd (teval known host m env (optimize fl known fuel a)))
+            = count_calls f (snd (teval known host n env a)).
+Proof. exact optimize_preserves_call_counts_cfg. Qed.
+
+(* identical traces when the arguments of the calls are first-order values *)
+Theorem C02_optimize_preserves_trace_first_order_exact : forall known host fl fuel,
+  cfg_ok fl = true -> host_respects known host ->
+  forall n m env a,
+  side_ok a = true ->
+  (forall x v, lookup x env = Some v -> vrel known v v) ->
+  n <= m ->
+  tdecided (fst (teval known host n env a)) ->
+  Forall (fun e => forallb fo (snd e) = true) (snd (teval known host n env a)) ->
+  snd (teval known host m env (optimize fl known fuel a)) = snd (teval known host n env a).
+Proof. exact optimize_preserves_trace_exact_cfg. Qed.
+
+(* ... and not identical in general: tick(x -> 1 + 2) - the argument of the event is the closure with
+   the unfolded body in the original and the folded closure constant in the optimized program; the
+   outcome here is an ERROR (the oracle rejects the argument) and the event before it is kept *)
+Theorem optimize_preserves_trace_syntactically_refuted :
+  teval [] host_ex 50 [] nv_prog4 =
+    (Err None, [(n_tick_ex, [VClo [nv_x] (AOp op_add (AConst (VInt 1)) (AConst (VInt 2))) [] []])]) /\
+  teval [] host_ex 50 [] (optimize value_flags [] 50 nv_prog4) =
+    (Err None, [(n_tick_ex, [VClo [nv_x] (AConst (VInt 3)) [] []])]).
+Proof. vm_compute. split; reflexivity. Qed.
+
+(* what the optimizer evaluates at Generate time makes no host call: the traced evaluation of each
+   redex it runs (a constant closure on constants, a method on constants) is the reference value with an
+   EMPTY trace under every oracle; a static function it runs is a modelled built-in, not a host function *)
+Theorem C02_generate_runs_no_host_call_closure : forall known fuel cv cs v,
+  cwf cv -> Forall cwf cs ->
+  (match cv with VClo ps _ _ _ => Nat.eqb (length ps) (length (map AConst cs)) | _ => false end) = true ->
+  gapp known fuel cv cs = Ok v ->
+  exists k v1, Sim.vrel v1 v /\
+    forall host env, teval known host k env (ACall (AConst cv) (map AConst cs)) = (Ok v1, []).
+Proof. exact generate_call_no_host_call. Qed.
+Theorem C02_generate_runs_no_host_call_method : forall known fuel rv m ar cs v,
+  cwf rv -> Forall cwf cs ->
+  closure_field rv m = false -> method_arity rv m = Some ar -> arity_matches ar (length cs) = true ->
+  run_method (gapp known fuel) rv m cs = Ok v ->
+  exists k v1, Sim.vrel v1 v /\
+    forall host env, teval known host k env (AMethod (AConst rv) m (map AConst cs)) = (Ok v1, []).
+Proof. exact generate_method_no_host_call. Qed.
+Theorem C02_generate_runs_no_host_call_static : forall fl f args,
+  rule_static fl f args <> AStatic f args -> static_arity f <> None.
+Proof. exact generate_static_not_host. Qed.
+
+(* non-vacuity of the trace theorems: (x -> tick(1, x) + 1)(2) + tick(2, 3) + (1 + 2) with an oracle
+   that respects the value relation: the optimizer folds 1 + 2 and keeps both calls, in order *)
+Example C02_nonvacuous_trace :
+  host_respects [] host_ex /\
+  side_ok nv_prog3 = true /\ cfg_ok value_flags = true /\
+  ast_eqb (optimize value_flags [] 50 nv_prog3) nv_prog3 = false /\
+  teval [] host_ex 50 [] nv_prog3 =
+    (Ok (VInt 12), [(n_tick_ex, [VInt 1; VInt 2]); (n_tick_ex, [VInt 2; VInt 3])]) /\
+  teval [] host_ex 50 [] (optimize value_flags [] 50 nv_prog3) =
+    (Ok (VInt 12), [(n_tick_ex, [VInt 1; VInt 2]); (n_tick_ex, [VInt 2; VInt 3])]) /\
+  count_calls n_tick_ex (snd (teval [] host_ex 50 [] (optimize value_flags [] 50 nv_prog3))) = 2%nat.
+Proof. split; [exact (host_ex_respects [])|]. vm_compute. repeat split. Qed.
+
 (* non-vacuity: operator fold, constant if, const-let propagation into a closure body, the
    closure-literal rule, a constant closure run at Generate time, a method with a callback run at
    Generate time and a static function all fire; the implementation's optimizer agrees with the
@@ -267,3 +378,13 @@ Print Assumptions folding_closure_run_is_pure.
 Print Assumptions folding_closure_literal_is_pure.
 Print Assumptions folding_static_run_is_pure.
 Print Assumptions C02_flags_match.
+Print Assumptions trace_erasure.
+Print Assumptions teval_fuel_monotone.
+Print Assumptions optimized_form_preserves_trace.
+Print Assumptions C02_optimize_preserves_trace.
+Print Assumptions C02_optimize_preserves_call_counts.
+Print Assumptions C02_optimize_preserves_trace_first_order_exact.
+Print Assumptions optimize_preserves_trace_syntactically_refuted.
+Print Assumptions C02_generate_runs_no_host_call_closure.
+Print Assumptions C02_generate_runs_no_host_call_method.
+Print Assumptions C02_generate_runs_no_host_call_static.
